@@ -40,8 +40,8 @@ Section Local.
 Variable bname : bytes.
 Variable store : ident -> lookup.
 Variable async_store : bool.
-Notation Good := (Good store async_store).
-Notation Good0 := (Good0 store async_store).
+Notation Good := (Good (srow store) async_store).
+Notation Good0 := (Good0 (srow store) async_store).
 
 Lemma unsub_raw_extra d c s0 :
   (buf (conns (unsub_raw d c s0) d), rpaused (conns (unsub_raw d c s0) d), wpaused (conns (unsub_raw d c s0) d),
@@ -80,7 +80,7 @@ Lemma deliver_local i c dt s d : Good0 s -> copen (conns s d) = true ->
     (forall q, q <> d -> conns s' q = conns s q) /\ untouched (conns s d) (conns s' d).
 Proof.
   intros G Ho. unfold deliver. destruct (closing (conns s d)) eqn:Ec.
-  - rewrite Ho. destruct (lostp_good0 store async_store d s G Ho) as (G' & _ & _ & Fo & _).
+  - rewrite Ho. destruct (lostp_good0 (srow store) async_store d s G Ho) as (G' & _ & _ & Fo & _).
     exists (lostp d s). split; [reflexivity|]. split; [exact G'|]. split; [exact Fo|]. apply lostp_untouched; assumption.
   - exists (wr d (FPub i c dt) s). split; [reflexivity|]. split; [apply wr_good0; exact G|].
     assert (NL : lost (conns s d) || aborted (conns s d) = false).
@@ -119,7 +119,7 @@ Proof.
   - apply local_same. intros q N. cbn. unfold upd. destruct (Nat.eqb_spec q p); [congruence|reflexivity].
   - apply local_same. intros q N. unfold sub. cbn. destruct (sub_raw_frame p c s) as (_ & Fo & _). apply Fo. exact N.
   - apply local_same. intros q N. unfold unsub. cbn. destruct (unsub_raw_frame p c s) as (_ & Fo & _). apply Fo. exact N.
-  - apply local_same. intros q N. destruct (lostp_good0 store async_store p s (proj1 G) H) as (_ & _ & _ & Fo & _). apply Fo. exact N.
+  - apply local_same. intros q N. destruct (lostp_good0 (srow store) async_store p s (proj1 G) H) as (_ & _ & _ & Fo & _). apply Fo. exact N.
   - apply local_same. intros q N. cbn. unfold upd. destruct (Nat.eqb_spec q p); [congruence|reflexivity].
   - unfold publish in H1. destruct G as (G0 & _).
     assert (G00 : Good0 (logA (APub p (akl (conns s p)) c d) s)).
